@@ -4,7 +4,7 @@ import z3
 from lib.framework import Obligation
 from lib import catgen, framework, ground
 from lib.catgen import Builder, shapes_upto, shapes, shape_name, CATCHAR, FEATCHAR, TERNCHAR
-from engines.pysym.core import sym_str, mk, E, chars_of, sym_join
+from engines.pysym.core import sym_str, safe_str, mk, E, chars_of, sym_join
 
 FUNCTIONS = ['depccg.cat.Category.parse (incl. the cat_split tokenizer regex, run by the engine\'s matcher on symbolic text)',
              'depccg.cat.Feature.parse', 'depccg.cat.Atom/Functor/UnaryFeature/TernaryFeature.__str__', '__eq__']
@@ -55,7 +55,7 @@ def h_print_parse(d, shape, lb, lf, feat, full=None):
         kind = 'raises:' + err if err else 'differs'
         if _known_punct_feature(v):
             return ('print-parse.punct-atom-with-feature.' + kind, t)
-        return ('print-parse.' + kind, t, sym_str(r) if r is not None else None)
+        return ('print-parse.' + kind, t, safe_str(r) if r is not None else None)
     if sym_str(r) != t:
         return ('print-parse.reprint-differs', t)
     return True
@@ -152,7 +152,7 @@ def h_ambiguous(d, n, lb, where, full):
             text = inner
     r, err = _parse(text)
     if err is None:
-        return ('ambiguous-text-accepted', text, sym_str(r))
+        return ('ambiguous-text-accepted', text, safe_str(r))
     return True
 
 
